@@ -37,3 +37,29 @@ func VerifC22ToDiffs(l []VerifC22Diag, alen, blen int) []Diff {
 	}
 	return ll.toDiffs(alen, blen)
 }
+
+// VerifC22HitLimit reports whether the two-sided search on (a, b) runs into its depth limit, i.e.
+// leaves its main loop without Myers' lemma applying and stitches a forward and a backward partial
+// result through lcs.fix/overlap.  It repeats compute's set-up (same limit as diff()) and looks at
+// the backward label table: row `limit` is only ever written by the last iteration of the loop.
+// The lcs it obtains is returned as well so the caller can check it is the one compute returns.
+func verifC22HitLimit(seqs sequences) (bool, []VerifC22Diag) {
+	const maxDiffs = 100
+	limit := maxDiffs / 2
+	alen, blen := seqs.lengths()
+	g := &editGraph{
+		seqs:  seqs,
+		vf:    newtriang(limit),
+		vb:    newtriang(limit),
+		limit: limit,
+		ux:    alen,
+		uy:    blen,
+		delta: alen - blen,
+	}
+	l := twosided(g)
+	hit := len(g.vb.vec) > limit && g.vb.vec[limit] != nil
+	return hit, verifC22Conv(l)
+}
+
+func VerifC22HitLimitRunes(a, b []rune) (bool, []VerifC22Diag) { return verifC22HitLimit(runesSeqs{a, b}) }
+func VerifC22HitLimitBytes(a, b []byte) (bool, []VerifC22Diag) { return verifC22HitLimit(bytesSeqs{a, b}) }
